@@ -421,6 +421,8 @@ func (w *L1World) checkQuiescent() {
 			}
 			if w.mons.C05 && b.exists {
 				w.checkFinalityQuiescent(b, outs)
+			} else if b.exists {
+				w.recordObservedFinal(b, outs)
 			}
 		}
 	}
@@ -463,6 +465,21 @@ func finalityAt(now, proposedAt time.Time, period time.Duration) fin {
 	return band
 }
 
+// recordObservedFinal remembers every output the chain itself shows as final (by the model or by its own query).
+func (w *L1World) recordObservedFinal(b *wBridge, outs []ophosttypes.QueryOutputProposalResponse) {
+	lf, err := w.env.L1.Q.LastFinalizedOutput(w.env.L1.Ctx, &ophosttypes.QueryLastFinalizedOutputRequest{BridgeId: b.id})
+	if err != nil {
+		return
+	}
+	for _, o := range outs {
+		if w.finality(b, o.OutputProposal.L1BlockTime) == surelyFinal || o.OutputIndex <= lf.OutputIndex {
+			if _, ok := b.final[o.OutputIndex]; !ok {
+				b.final[o.OutputIndex] = outSnap{hex.EncodeToString(o.OutputProposal.OutputRoot), o.OutputProposal.L2BlockNumber, o.OutputProposal.L1BlockTime, o.OutputProposal.L1BlockNumber}
+			}
+		}
+	}
+}
+
 func (w *L1World) checkFinalityQuiescent(b *wBridge, outs []ophosttypes.QueryOutputProposalResponse) {
 	l1 := w.env.L1
 	run := w.run
@@ -503,7 +520,8 @@ func (w *L1World) checkFinalityQuiescent(b *wBridge, outs []ophosttypes.QueryOut
 		run.Check("C05.final_is_irreversible", good, "c05.irreversible", w.trace(), "bridge %d output %d was final and is now missing or different", b.id, idx)
 	}
 	for _, o := range outs {
-		if w.finality(b, o.OutputProposal.L1BlockTime) == surelyFinal {
+		// final by the model, or shown as final by the chain itself (the query names it or a later index)
+		if w.finality(b, o.OutputProposal.L1BlockTime) == surelyFinal || o.OutputIndex <= lf.OutputIndex {
 			if _, ok := b.final[o.OutputIndex]; !ok {
 				b.final[o.OutputIndex] = outSnap{hex.EncodeToString(o.OutputProposal.OutputRoot), o.OutputProposal.L2BlockNumber, o.OutputProposal.L1BlockTime, o.OutputProposal.L1BlockNumber}
 			}
@@ -614,6 +632,11 @@ func (w *L1World) opDeposit() {
 			w.run.Check("C10.real_bridges_only", b.exists, "c10.deposit_to_nonexistent_bridge", w.trace(), "deposit accepted for bridge id %d which does not exist (sequence %d consumed, %s%s escrowed)", id, seq, amt, denom)
 			w.run.Check("C10.sequence_gap_free", seq == b.nextSeq, "c10.sequence", w.trace(), "bridge %d deposit returned sequence %d, expected %d", id, seq, b.nextSeq)
 			w.checkDepositEvent(res, id, b.nextSeq, sender.String(), to, denom, amt, data)
+			aft := sim.AllBalances(w.env.L1.Ctx, w.env.L1.BK)
+			escAddr := ophosttypes.BridgeAddress(id).String()
+			gotEsc := aft[escAddr].AmountOf(denom).Sub(before.balances[escAddr].AmountOf(denom))
+			gotSnd := before.balances[sender.String()].AmountOf(denom).Sub(aft[sender.String()].AmountOf(denom))
+			w.run.Check("C10.announced_amount_was_moved", gotEsc.Equal(amt) && gotSnd.Equal(amt), "c10.amount_not_moved", w.trace(), "deposit of %s%s announced, but the escrow received %s and the sender paid %s", amt, denom, gotEsc, gotSnd)
 			w.run.Distinct(fmt.Sprintf("C10/deposit/b%d/exists=%v/zero=%v/data=%v", id, b.exists, amt.IsZero(), len(data) > 0))
 		}
 		b.nextSeq = seq + 1
@@ -809,6 +832,11 @@ func (w *L1World) opDelete() {
 	var firstFinal fin = surelyNot
 	anySurelyFinalInSuffix, anyBand := false, false
 	if idx >= 1 && idx < next {
+		for k := idx; k < next; k++ {
+			if _, seen := b.final[k]; seen {
+				anySurelyFinalInSuffix = true // the chain itself has already shown this output as final
+			}
+		}
 		for _, o := range b.outputs[idx-1:] {
 			switch w.finality(b, o.ProposedAt) {
 			case surelyFinal:
@@ -997,6 +1025,13 @@ func (w *L1World) deliverClaim(b *wBridge, m *ophosttypes.MsgFinalizeTokenWithdr
 		if w.mons.C03 || w.mons.C01 {
 			w.run.Check("C03.accepted_claim_is_committed", v.outputExists && v.rootMatches && v.proofMatches, "c03.forged_claim_accepted", w.trace(),
 				"finalization accepted although independent verification says exists=%v output-root-match=%v proof-match=%v (variant %s)", v.outputExists, v.rootMatches, v.proofMatches, variant)
+		}
+		if tb != nil && tb.exists {
+			if st, err := w.env.L1.Q.OutputProposal(w.env.L1.Ctx, &ophosttypes.QueryOutputProposalRequest{BridgeId: m.BridgeId, OutputIndex: m.OutputIndex}); err == nil {
+				if _, ok := tb.final[m.OutputIndex]; !ok {
+					tb.final[m.OutputIndex] = outSnap{hex.EncodeToString(st.OutputProposal.OutputRoot), st.OutputProposal.L2BlockNumber, st.OutputProposal.L1BlockTime, st.OutputProposal.L1BlockNumber}
+				}
+			}
 		}
 		if w.mons.C05 {
 			w.run.Check("C05.no_finalize_before_window", v.fin != surelyNot, "c05.finalized_too_early", w.trace(), "withdrawal finalized against output %d of bridge %d before its finalization period elapsed", m.OutputIndex, m.BridgeId)
